@@ -94,7 +94,7 @@ def make_queries(rng, s_sorted, h):
     q.append(rng.choice(s_sorted, size=min(10, s_sorted.size)))
     # region edges as the documented construction would place them (own computation), +- 1 ulp
     nl = max(int(np.log(rngw / h) / np.log(2)) + 1, 0) if rngw / h > 0 else 0
-    nl = min(nl, 16)
+    nl = min(nl, 18)
     edges = np.linspace(lo, hi, 2**nl + 1)
     pick = edges if edges.size <= 24 else rng.choice(edges, size=24, replace=False)
     q.append(pick)
@@ -122,7 +122,7 @@ def run_job(job, rec):
             mode = "cv_sub" if n <= 5000 else "rule"
         kw = {}
         if mode == "user":
-            f = 10.0 ** rng.uniform(-3, np.log10(2.0)) if rng.random() < 0.85 else rng.uniform(4.1, 8.0)
+            f = 10.0 ** rng.uniform(-4.5 if n <= 5000 else -3, np.log10(2.0)) if rng.random() < 0.85 else rng.uniform(4.1, 8.0)
             kw["bandwidth"] = float(rngw * f)
             rec.count("cases:user_bandwidth")
             if f > 4:
